@@ -57,3 +57,20 @@ Proof.
   specialize (H Hn). discriminate.
 Qed.
 Print Assumptions C17_scalar_kept_refuted.
+
+(* ONLY ACTIVE PARAMETERS ARE PRESENTED.  Act roots tr node: a root whose name the trial carries, or a child of an active
+   node whose matching parent values contain the value the trial carries for that node (declarative activity, no queue).
+   For every conditional forest (any depth, the same name may occur in several subtrees) and every trial (a dict): each
+   presented (name, value) belongs to an active node of that name and is the trial's value cast to the node's type ... *)
+Theorem C17_presented_are_active : forall roots tr, NoDup (map fst tr) ->
+  forall nx, In nx (to_external 1000 (map (fun t => (None, t)) roots) tr [] []) ->
+  exists node v, Act roots tr node /\ xt_name node = fst nx /\ alookup (fst nx) tr = Some v /\ snd nx = cast (xt_ext node) v.
+Proof. exact presented_are_active. Qed.
+Print Assumptions C17_presented_are_active.
+
+(* ... and a trial carrying a parameter that is not an active parameter of the space (unknown, or inactive under the
+   values the trial carries) is an error, never silently truncated or accepted *)
+Theorem C17_inactive_parameter_is_an_error : forall roots tr n, NoDup (map fst tr) -> In n (map fst tr) ->
+  (forall node, Act roots tr node -> xt_name node <> n) -> trial_parameters roots tr = Err EValue.
+Proof. exact inactive_is_error. Qed.
+Print Assumptions C17_inactive_parameter_is_an_error.
